@@ -94,15 +94,37 @@ Definition result_consistent (k : rcase) (rs : list record) (answers : list val)
           (combine (rbattery k) answers).
 
 (* ---- C09 ---- *)
+(* Naive specification of the outcome code of chain(converters, case_sensitive=sens), on record lists only (no converter, no
+   index): chain starts from no record at all and calls add_record(record, case_sensitive=sens, merge=True) for every record
+   of every input, in order; one call is CheckM.spec_step (the naive one-step specification of C05): it is rejected (code 1)
+   exactly when the record matches two or more of the records accumulated so far; with exactly one match it is merged into it,
+   with none it is appended.  The code of chain is 1 as soon as one call is rejected, and also 1 when there is no input
+   converter at all; otherwise 0.  The inputs reach chain as converters, whose records are sorted by canonical prefix:
+   the records of one input are taken in that order. *)
+Definition chain_op (sens : bool) (r : record) : mop := {| op_rec := r; op_cs := sens; op_mg := true; op_ap := false |}.
+Fixpoint spec_absorb_code (fc : chr -> str) (sens : bool) (acc todo : list record) : Z :=
+  match todo with
+  | [] => 0%Z
+  | r :: rest => let '(code, acc') := spec_step fc acc (chain_op sens r) in
+                 if Z.eqb code 0 then spec_absorb_code fc sens acc' rest else 1%Z
+  end.
+Definition spec_chain_code (fc : chr -> str) (ins : list (list record)) (sens : bool) : Z :=
+  match ins with
+  | [] => 1%Z
+  | _ => spec_absorb_code fc sens [] (flat_map sort_records ins)
+  end.
+
 Definition P_chain (k : rcase) (sens : bool) (code : Z) (answers : list val) : bool :=
   let ins := rc_inputs k in
   let fc := fold_of (rc_fold k) in
-  if Z.eqb code 1 then negb (is_nil ins) || true          (* ValueError: a later record bridges two earlier ones (or no input) *)
+  (* ValueError exactly when the specification says so: a record matches two or more accumulated records (or no input) *)
+  if Z.eqb code 1 then Z.eqb (spec_chain_code fc ins sens) 1
   else if negb (Z.eqb code 0) then false
   else match result_records k answers with
   | None => false
   | Some R =>
-      result_consistent k R answers
+      Z.eqb (spec_chain_code fc ins sens) 0
+      && result_consistent k R answers
       (* exactly the union: nothing lost, nothing invented *)
       && subset (flat_map all_p ins) (all_p R) && subset (all_p R) (flat_map all_p ins)
       && subset (flat_map all_u ins) (all_u R) && subset (all_u R) (flat_map all_u ins)
